@@ -328,7 +328,11 @@ func (r *Decoder) decodeElement(ectx evaluationContext, element jsonldinternal.E
 	var selfSubjectRange *cursorio.TextOffsetRange
 
 	if atID, ok := elementObject.Members["@id"]; ok {
-		valuePrimitive := atID.(*jsonldinternal.ExpandedScalarPrimitive)
+		valuePrimitive, ok := atID.(*jsonldinternal.ExpandedScalarPrimitive)
+		if !ok {
+			// such as two @id entries merged from @nest members
+			return fmt.Errorf("invalid @id value")
+		}
 
 		if _, ok := valuePrimitive.Value.(inspectjson.NullValue); ok {
 			return nil
